@@ -712,29 +712,29 @@ Qed.
 Definition scalar_json_value (j : json) : bool :=
   match j with JBool _ | JNum _ _ | JStr _ => true | _ => false end.
 
-Lemma fe_value_plain_num : forall fmt numtext m e, numtext_ok numtext -> seqb fmt "jsonschema" = false ->
+Lemma fe_value_plain_num : forall fmt numtext m e, numtext_ok numtext ->
   dyn_plain (fe_value fmt numtext (JNum m e)) = true /\ dyn_json (fe_value fmt numtext (JNum m e)) = Some (JNum m e).
 Proof.
-  intros fmt numtext m e NT F. simpl. rewrite F.
-  destruct (seqb fmt "openapi"); simpl.
-  - rewrite (NT m e). split; reflexivity.
+  intros fmt numtext m e NT. unfold fe_value.
+  destruct (seqb fmt "jsonschema") eqn:F.
   - destruct (Z.eqb e 0) eqn:E0; simpl.
     + apply Z.eqb_eq in E0. subst. split; reflexivity.
     + rewrite (NT m e). split; reflexivity.
+  - simpl. rewrite F. destruct (seqb fmt "openapi"); simpl.
+    + rewrite (NT m e). split; reflexivity.
+    + destruct (Z.eqb e 0) eqn:E0; simpl.
+      * apply Z.eqb_eq in E0. subst. split; reflexivity.
+      * rewrite (NT m e). split; reflexivity.
 Qed.
 
-(* CUE and OpenAPI: a scalar default that fits its field arrives as a literal the Go field accepts and holds,
-   and as a Python literal denoting the same value *)
-Theorem default_not_altered_cue_openapi : forall fmt numtext pt k j,
-  (seqb fmt "cue" || seqb fmt "openapi")%bool = true -> numtext_ok numtext ->
-  scalar_json_value j = true -> fits_scalar k j = true -> is_datetime pt = false ->
+(* every format: a scalar default that fits its field arrives as a literal the Go field accepts and holds, and as
+   a Python literal denoting the same value (JSON Schema: since walkNumber unwraps json.Number) *)
+Theorem default_not_altered_scalars : forall fmt numtext pt k j,
+  numtext_ok numtext -> scalar_json_value j = true -> fits_scalar k j = true -> is_datetime pt = false ->
   (exists v, assign_scalar pt k (format_scalar (fe_value fmt numtext j)) = COk v /\ gscalar_holds v j = true) /\
   py_lit_json (fe_value fmt numtext j) = POk j.
 Proof.
-  intros fmt numtext pt k j F NT SJ FJ DT.
-  assert (NJ : seqb fmt "jsonschema" = false).
-  { destruct (seqb fmt "cue") eqn:C; [apply String.eqb_eq in C; subst; reflexivity|].
-    destruct (seqb fmt "openapi") eqn:O; [apply String.eqb_eq in O; subst; reflexivity | discriminate]. }
+  intros fmt numtext pt k j NT SJ FJ DT.
   assert (PJ : dyn_plain (fe_value fmt numtext j) = true /\ dyn_json (fe_value fmt numtext j) = Some j).
   { destruct j; simpl in SJ; try discriminate; try (split; reflexivity). apply fe_value_plain_num; assumption. }
   destruct PJ as [P J]. split.
@@ -742,29 +742,12 @@ Proof.
   - apply py_lit_json_plain; assumption.
 Qed.
 
-(* JSON Schema: a numeric default stays a json.Number, which %#v prints as a QUOTED string: Go rejects the literal
-   for every integer and float field (the package does not compile), Python stores a string *)
-Theorem default_altered_jsonschema_numbers : forall numtext pt k m e,
-  fits_scalar k (JNum m e) = true ->
-  (exists w, assign_scalar pt k (format_scalar (fe_value "jsonschema" numtext (JNum m e))) = CNoCompile w) /\
-  py_lit_json (fe_value "jsonschema" numtext (JNum m e)) = POk (JStr (numtext m e)).
-Proof.
-  intros numtext pt k m e F. split; [|reflexivity].
-  destruct k; simpl in F; try discriminate; simpl; eexists; reflexivity.
-Qed.
-
-Theorem default_not_altered_jsonschema_partial : forall numtext pt k j,
-  match j with JBool _ | JStr _ => True | _ => False end -> fits_scalar k j = true -> is_datetime pt = false ->
-  (exists v, assign_scalar pt k (format_scalar (fe_value "jsonschema" numtext j)) = COk v /\ gscalar_holds v j = true) /\
-  py_lit_json (fe_value "jsonschema" numtext j) = POk j.
-Proof.
-  intros numtext pt k j SJ FJ DT.
-  assert (PJ : dyn_plain (fe_value "jsonschema" numtext j) = true /\ dyn_json (fe_value "jsonschema" numtext j) = Some j).
-  { destruct j; try contradiction; split; reflexivity. }
-  destruct PJ as [P J]. split.
-  - destruct (assign_scalar_fits pt k _ j P J FJ DT) as [v [A [B _]]]. exists v. split; assumption.
-  - apply py_lit_json_plain; assumption.
-Qed.
+(* JSON Schema, LIST defaults: the elements stay json.Number, which %#v prints as QUOTED strings: Python stores
+   strings (re-typed); Go rejects the []string literal for every list of numbers *)
+Theorem default_altered_jsonschema_list_numbers : forall numtext m e a,
+  py_lit_json (fe_value "jsonschema" numtext (JArr [JNum m e])) = POk (JArr [JStr (numtext m e)]) /\
+  (exists w, assign (TArray a (TScalar attrs0 KInt64 DNil [])) (format_scalar (fe_value "jsonschema" numtext (JArr [JNum m e]))) = CNoCompile w).
+Proof. intros. split; [reflexivity | eexists; reflexivity]. Qed.
 
 (* the JSON Schema front-end drops the default of an enumeration, of a union and of an inline object; the OpenAPI
    front-end those of unions and inline objects (walkEnum / walkOneOf / walkObject never read `default`) *)
